@@ -39,7 +39,7 @@ Judge(c, hist, S) ==
               C03 |-> IF Want("C03") THEN P!Failing(P!C03_Clauses(cfg, S)) \cup (IF c.flowrun THEN {} ELSE {"flowRunConvenience"}) ELSE {},
               C04 |-> IF Want("C04") THEN P!Failing(P!C04_Clauses(cfg, S)) \cup (IF c.flowrun THEN {} ELSE {"flowRunConvenience"}) ELSE {},
               C05 |-> IF Want("C05") THEN P!Failing(P!C05_Clauses(cfg, S)) \cup (IF c.flowrun THEN {} ELSE {"flowRunConvenience"}) ELSE {},
-              C10 |-> IF Want("C10") THEN P!Failing(P!C10_Clauses(cfg, S)) \cup (IF c.flowrun THEN {} ELSE {"flowRunConvenience"}) ELSE {},
+              C10 |-> IF Want("C10") THEN P!Failing(P!C10_Clauses(cfg, S)) \cup (IF c.flowrun THEN {} ELSE {"flowRunConvenience"}) \cup Reent ELSE {},
               C11 |-> IF Want("C11") THEN P!Failing(P!C11E_Clauses(cfg, S)) \cup (IF c.flowrun THEN {} ELSE {"flowRunConvenience"}) ELSE {},
               C17 |-> IF Want("C17") THEN P!Failing(P!C17_Clauses(cfg, S)) \cup Reent ELSE {},
               C18 |-> IF Want("C18") THEN P!Failing(P!C18_Clauses(cfg, S)) ELSE {}]} :
